@@ -28,7 +28,7 @@ TReset == /\ Is("header")
           /\ phase' = (IF WiringFails THEN "failed" ELSE "init")
           /\ q' = [port \in AllInPorts |-> <<>>]
           /\ ups' = [port \in AllInPorts |-> InitUps(port)]
-          /\ em' = [e \in EmIds |-> [i |-> 1, left |-> EmRemotes(e), wait |-> "", st |-> IF e \in Relays THEN "collect" ELSE "run", eof |-> FALSE]]
+          /\ em' = EmInit
           /\ relayed' = [e \in Relays |-> <<>>]
           /\ rpc' = [n \in CmdRun |-> "idle"]
           /\ ctpc' = [n \in CmdRun |-> "off"]
@@ -49,6 +49,7 @@ TReset == /\ Is("header")
           /\ emitted' = [op \in AllOuts |-> <<>>]
           /\ recvd' = [port \in AllInPorts |-> <<>>]
           /\ strm' = StrmInit
+          /\ cb' = CbInit
 
 \* result of the wiring phase as logged by the implementation = static wiring of the model
 TWire == /\ Is("wire")
@@ -145,7 +146,11 @@ TEnd ==
   /\ Ev.execs = execs
   /\ UNCHANGED vars
 
+\* the components have no hooks at their receives: draining, combine() and wg.Wait() are silent steps
+TSilent == CombStep /\ UNCHANGED l
+
 TraceNext ==
+  \/ TSilent
   \/ TReset \/ TRelayRecv \/ TEmFinish \/ TWire \/ TStart \/ TSendBegin \/ TSendDone \/ TClose \/ TProcStart \/ TRecv
   \/ TTaskNew \/ TTaskTake \/ TFifoCreate \/ TFifoRemove \/ TDoneRecv \/ TSinkRecv \/ TFail \/ TReturn \/ TEnd
   \/ TSimple("ct.end", CTEnd) \/ TSimple("tasks.closed", TasksClosed) \/ TSimple("proc.exit", RunExit)
